@@ -215,11 +215,29 @@ class AdrSrc(Src):
         yield Abs16Relocation(self.addr)
 
 
+def check_src_register(src, special):
+    """Refuse registers for which the As bits select another mode.
+
+    With r2 / r3 (the constant generators) As=1,2,3 denote the constants
+    #1, #2, #4, #8 and #-1, and As=3 with r0 (pc) is the immediate mode which
+    takes the word after the instruction as operand.
+    """
+    if src.reg.num in special:
+        raise ValueError(
+            "{} cannot be encoded: As={} on {} is not this addressing mode".format(
+                src, src.patterns["As"], src.reg
+            )
+        )
+
+
 class MemSrc(Src):
     """Memory content"""
 
     syntax = Syntax(["@", Src.reg])
     patterns = {"As": 2, "source": Src.reg}
+
+    def set_user_patterns(self, tokens):
+        check_src_register(self, (2, 3))
 
 
 class MemSrcInc(Src):
@@ -228,11 +246,17 @@ class MemSrcInc(Src):
     syntax = Syntax(["@", Src.reg, "+"])
     patterns = {"As": 3, "source": Src.reg}
 
+    def set_user_patterns(self, tokens):
+        check_src_register(self, (0, 2, 3))
+
 
 class MemSrcOffset(Src):
     tokens = [SrcImmToken]
     syntax = Syntax([Src.imm, "(", Src.reg, ")"])
     patterns = {"As": 1, "source": Src.reg, "srcimm": Src.imm}
+
+    def set_user_patterns(self, tokens):
+        check_src_register(self, (3,))
 
 
 src_modes = (
